@@ -75,6 +75,36 @@ def wire_ops(chk):
     return ops
 
 
+def question_in_scope(op):
+    """C10 quantifies over "queries whose labels contain no '.' or NUL byte" (iodine keeps names as dotted C strings): False for a `dns` op whose
+    question has such a label (the echo clause is then not demanded; well-formedness of what is emitted still is)"""
+    t = op.split()
+    if t[0] != "dns" or len(t) < 3:
+        return True
+    d = vlib.unhx(t[2])
+    i, hops = 12, 0
+    while i < len(d) and hops < 128:
+        n = d[i]
+        if n == 0:
+            return True
+        if n & 0xc0 == 0xc0:
+            if i + 1 >= len(d):
+                return True
+            i = ((n & 0x3f) << 8) | d[i + 1]
+            hops += 1
+            continue
+        lab = d[i + 1:i + 1 + n]
+        if b"." in lab or b"\0" in lab:
+            return False
+        i += 1 + n
+    return True
+
+
+def nodot(name):
+    """a dotted C string with a trailing '.' (what the lenient dns_decode leaves when a name breaks off after a label) names the same label sequence"""
+    return name[:-1] if name.endswith(b".") else name
+
+
 def strict_both(chk, msgs, what):
     """msgs: list of (bytes, context ops, expectation dict or None).  Returns #bad."""
     bad = 0
@@ -92,7 +122,7 @@ def strict_both(chk, msgs, what):
         if why is None and exp:
             if exp.get("id") is not None and p["id"] != exp["id"]:
                 why = "carries id %d, the query had id %d" % (p["id"], exp["id"])
-            elif exp.get("name") is not None and (len(p["qd"]) != 1 or p["qd"][0][0] != exp["name"] or p["qd"][0][1] != exp["type"]):
+            elif exp.get("name") is not None and (len(p["qd"]) != 1 or nodot(p["qd"][0][0]) != nodot(exp["name"]) or p["qd"][0][1] != exp["type"]):
                 why = "does not echo the question (%r type %s), has %r" % (exp["name"][:40], exp["type"], p["qd"][:1])
             elif exp.get("answer") and not p["an"]:
                 why = "has no answer record"
@@ -132,7 +162,11 @@ def session_messages(chk):
         for i, st in enumerate(h.steps):
             last_ans = None
             dq = next((e for e in st.events if e[0] == "dq"), None)
+            scope = question_in_scope(st.op)
             for e in st.events:
+                if e[0] in ("nsa", "fwd") and not scope:
+                    msgs.append((vlib.unhx(e[2]), ops[:i + 1][-40:], None))        # out of the quantifier's scope for the echo clause
+                    continue
                 if e[0] == "ans":
                     last_ans = e
                 elif e[0] == "tx" and last_ans is not None:
